@@ -350,6 +350,11 @@ def run(F, scopes, rule_id="R24"):
                 frontier = nxt
         kinds = ",".join(sorted({x["kind"] for x in ss}))
         iid = "absorb|%s|%s" % (root, producer)
+        if not rows and producer in ("as_ref", "as_mut", "iter", "last", "get", "index"):
+            # a Result that is *stored* (vector of profiles of an isotherm) and inspected later: the failure was kept when it was
+            # produced; skipping failed entries while reading is not a place where a fresh failure disappears
+            r.inst(iid, ss[0]["span"], "exempt", nontrivial=False, kinds=kinds, note="inspection of a stored Result")
+            continue
         if not rows:
             r.inst(iid, ss[0]["span"], "violation")
             r.fail(iid, ss[0]["span"],
